@@ -356,6 +356,17 @@ def p4_context(ctx):
     rs, rr = Renderer(st), Renderer(re_)
     ctx.inst(R)
     a, b = st['body'].get('body', []), re_['body'].get('body', [])
+    # statements that only bump a statistics counter (a field nothing reads except its own update and a const accessor) are
+    # not steps of the context switch
+    from ..cases import observation_only_fields
+    obs = observation_only_fields(ctx.F, 'Teakra::Interpreter')
+
+    def _counts_only(x):
+        t = x.get('e') if x.get('k') == 'un' and x.get('op') in ('++', 'post++') else (x.get('lhs') if x.get('k') == 'assign' and x.get('op') == '+=' else None)
+        p_ = field_path(t) if t is not None else None
+        return bool(p_) and p_[0] == 'Teakra::Interpreter' and p_[1] in obs
+    a = [x for x in a if not _counts_only(x)]
+    b = [x for x in b if not _counts_only(x)]
     if len(a) != len(b):
         ctx.report(R, re_, re_['body'], 'ContextStore/Restore length', 'store has %d top-level steps, restore has %d' % (len(a), len(b)))
     # the steps touch disjoint registers, so their order is immaterial: pair calls by name and conditionals by guard
